@@ -92,7 +92,7 @@ func plainEnds(s string) bool {
 
 func runC15(ctx *Ctx) error {
 	r, res := ctx.Rng, ctx.Res
-	res.Rule = "on loopback TCP: (A) DialContext against this package's Listen/Accept for callsigns and passwords from three families (callsign-like, printable ASCII incl. inner spaces, arbitrary bytes without CR), both sides writing a payload immediately after login; (B) the library client against a scripted server that splits prompts at random places, sends banner and blank lines, garbage lines without the keywords, and coalesces the payload with the password prompt or sends everything in one write; (C) the library server against a scripted client that sends callsign, password and payload in one write or in random pieces; every observation compared with the model (what each side sent, what was left for Read) and judged by the property (RemoteCall = the dialler's callsign, payloads byte-exact and complete); (D) DialContext / DialTimeout / DialURL(dial_timeout) / DialURLContext with a configured time-out and a later context deadline against servers that stay silent, send half a prompt, send garbage lines periodically, close at once, close after the first prompt, or prompt and then never read the (24 MiB) answer: the call must return an error no later than its deadline (+1.5 s tolerance for scheduling on a loaded machine), a context cancelled without deadline ends the dial as well, and so does a time-out or deadline that has already run out when the dial starts (0 and -1 s). Non-trivial: scenario with a payload of at least one byte in each direction; distinct by scenario parameters."
+	res.Rule = "on loopback TCP: (A) DialContext against this package's Listen/Accept for callsigns and passwords from three families (callsign-like, printable ASCII incl. inner spaces, arbitrary bytes without CR), both sides writing a payload immediately after login; (B) the library client against a scripted server that splits prompts at random places, sends banner and blank lines, garbage lines without the keywords, and coalesces the payload with the password prompt or sends everything in one write; (C) the library server against a scripted client that sends callsign, password and payload in one write or in random pieces; every observation compared with the model (what each side sent, what was left for Read) and judged by the property (RemoteCall = the dialler's callsign, payloads byte-exact and complete); (D) DialContext / DialTimeout / DialURL(dial_timeout) / DialURLContext / transport.DialURLContext through the registry with a configured time-out and a later context deadline against servers that stay silent, send half a prompt, send garbage lines periodically, close at once, close after the first prompt, or prompt and then never read the (24 MiB) answer: the call must return an error no later than its deadline (+1.5 s tolerance for scheduling on a loaded machine), a context cancelled without deadline ends the dial as well, and so does a time-out or deadline that has already run out when the dial starts (0 and -1 s). Non-trivial: scenario with a payload of at least one byte in each direction; distinct by scenario parameters."
 	if !ardLoopbackOK() {
 		res.Fail(Failure{Kind: "broken", Site: "environment", Detail: "loopback TCP is not available: the telnet package cannot be exercised"})
 		return nil
@@ -368,10 +368,10 @@ func runC15(ctx *Ctx) error {
 	// ---------- (D) the dial deadline
 	behaviours := []string{"silent", "half-prompt", "garbage-forever", "close-at-once", "close-after-prompt", "callsign-prompt-only", "prompt-then-stop-reading"}
 	nd := ctx.N(28, 98)
-	hows := []string{"context", "timeout", "url", "cancel", "url-and-later-context-deadline", "dialer-timeout-and-later-context-deadline", "default-dialer-timeout-through-the-registry"}
+	hows := []string{"context", "timeout", "url", "cancel", "url-and-later-context-deadline", "dialer-timeout-and-later-context-deadline", "default-dialer-timeout-through-the-registry", "context-deadline-through-the-registry"}
 	for i := 0; i < nd+4; i++ {
 		beh := behaviours[i%len(behaviours)]
-		how := hows[(i+i/len(behaviours))%len(hows)]
+		how := hows[(i+2*(i/len(behaviours)))%len(hows)]
 		limit := time.Duration(150+r.Intn(250)) * time.Millisecond
 		if i >= nd {
 			// a time-out or deadline that has already run out when the dial starts (0 and -1 s): the
@@ -465,6 +465,17 @@ func runC15(ctx *Ctx) error {
 					c, err = transport.DialURL(u)
 				}
 				telnet.DefaultDialer.Timeout = oldT
+			case "context-deadline-through-the-registry":
+				// the application dials a telnet URL through the transport registry with a context of
+				// its own; the (default) dialer's time-out is far later
+				dctx, cancel := context.WithTimeout(context.Background(), limit)
+				u, perr := transport.ParseURL(fmt.Sprintf("telnet://LA5NTA:secret@%s/wl2k", ln.Addr().String()))
+				if perr != nil {
+					err = perr
+				} else {
+					c, err = transport.DialURLContext(dctx, u)
+				}
+				cancel()
 			case "url-and-later-context-deadline", "dialer-timeout-and-later-context-deadline":
 				// the caller's context has a deadline of its own, far later than the configured
 				// time-out: the earlier of the two limits the dial
